@@ -228,6 +228,15 @@ STRUCT += [
     ("user-thing-str", "UserThing", {"ident": "seven", "flag": "yes", "anything": False, "label": "lbl"}),
     ("user-thing-odd", "UserThing", {"ident": 1.5, "flag": 3, "maybe_id": None}),
     ("user-box", "UserBox", {"things": [{"ident": 1}, {"ident": "b", "label": [3, 4]}], "position": {"line": 1, "character": 2}}),
+    # two different classes of the user with the very same module and qualified name (attrs.make_class
+    # twice / a class defined inside a function called twice): anything keyed by the NAME of a class
+    # instead of the class confuses them
+    ("user-twin-a", "TwinA", {"traceLevel": 2, "dryRun": True}),
+    ("user-twin-b", "TwinB", {"workDoneToken": "t-1", "partialResultToken": 5, "traceLevel": "verbose"}),
+    ("user-twin-b-again", "TwinB", {"workDoneToken": 7, "traceLevel": "off"}),
+    ("user-twin-a-again", "TwinA", {"traceLevel": 0}),
+    ("user-local-a", "LocalA", {"firstName": "a", "retryCount": 3}),
+    ("user-local-b", "LocalB", {"retryCount": "many", "lastSeenVersion": 2, "firstName": ["x", "y"]}),
 ]
 
 # large payloads (what real servers send): size-dependent fast paths must not change results nor affect
